@@ -29,6 +29,8 @@ type Obligation struct {
 	Ms     int64
 	Model  string
 	Script string
+	// RawScript: a complete, self-contained SMT-LIB script (bit-vector mode); when set it is used as is
+	RawScript string
 }
 
 // State maps state variables (heaps, ghosts, cells, alloc counter) to terms.
